@@ -50,6 +50,8 @@ StubPDFRatio(cfg, R, dR=None, param_names=None, bkg_param_names=None)
                                                 lazily) and get_ratio returns *that stored array object itself* (no copy), so a
                                                 consumer that writes into its input corrupts later evaluations.
                                                 ``.snapshot()`` -> bytes of every array the stub owns (tables + stored values).
+                                                ``.set_table(R, dR=None)`` -> new prescribed tables for the next trial (new event
+                                                data on the same object; also on StubSigPDF / StubBkgPDF: ``.set_table(table)``).
 StubSigPDF(cfg, S, share=False) / StubBkgPDF(cfg, B, share=False)
                                              -> PDF + IsSignalPDF / IsBackgroundPDF with prescribed densities for the real
                                                 SigOverBkgPDFRatio: S (K, E) per (source, eid), B (E,) per eid (zeros allowed);
@@ -259,6 +261,13 @@ def _stub_classes():
             if self.share and not callable(self.R):
                 self._stored = np.array(self._take(_val(self.R, {}), tdm), dtype=np.float64)
 
+        def set_table(self, R, dR=None):
+            """new event data (next trial): replace the prescribed tables; stored values are dropped"""
+            self.R = R
+            if dR is not None:
+                self.dR = dict(dR)
+            self._stored = None
+
         def snapshot(self):
             parts = [] if callable(self.R) else [np.asarray(self.R, dtype=np.float64).tobytes()]
             parts += [np.asarray(d, dtype=np.float64).tobytes() for d in self.dR.values() if not callable(d)]
@@ -312,6 +321,12 @@ def _stub_classes():
             pass
 
         def initialize_for_new_trial(self, tdm, tl=None, **kwargs):
+            self._stored = None
+
+        def set_table(self, table):
+            """new event data (next trial): replace the prescribed densities; stored values are dropped"""
+            self.table = np.asarray(table, dtype=np.float64)
+            self.S = self.B = self.table
             self._stored = None
 
         def snapshot(self):
